@@ -286,63 +286,9 @@ theorem countBefore_shift (k pos : Int) (l : List Iv) : countBefore (pos + k) (s
     have h : (e.2 + k ≤ pos + k) ↔ (e.2 ≤ pos) := by omega
     simp only [shiftL_cons, countBefore, shiftIv_snd, h, ih]
 
-/-- how far the thresholds of `detect_reference_exons_*` reach: a distance above this value fails both tests -/
-def sentinelReach (p : Params) : Int := max p.max_fake_terminal_exon_len (p.max_missed_exon_len + p.delta)
-
-/-- `detect_reference_exons_beyond_polya` computes `abs(exon_end − pos)` for BOTH positions, also when one of them is the
-    sentinel −1 (the distance to coordinate −1 then enters a `min`).  The result is independent of this spurious term when
-    the isoform's exon ends are farther from coordinate −1 than the thresholds reach, before and after the shift. -/
-def FarOriginA (k : Int) (p : Params) (iso : List Iv) : Prop :=
-  ∀ e ∈ iso, sentinelReach p < iabs (e.2 + 1) ∧ sentinelReach p < iabs (e.2 + 1 + k)
-def FarOriginT (k : Int) (p : Params) (iso : List Iv) : Prop :=
-  ∀ e ∈ iso, sentinelReach p < iabs (e.1 + 1) ∧ sentinelReach p < iabs (e.1 + 1 + k)
-
-theorem far_decision (tlen mf mm dl d s : Int) (hs : max mf (mm + dl) < s) :
-    ((tlen ≤ mf ∧ min d s ≤ mf) ∨ (tlen ≤ mm ∧ iabs (tlen - min d s) ≤ dl))
-      ↔ ((tlen ≤ mf ∧ d ≤ mf) ∨ (tlen ≤ mm ∧ iabs (tlen - d) ≤ dl)) := by
-  simp only [iabs]
-  omega
-
-theorem sentinel_decision (k b ext int tlen mf mm dl : Int) (hE : SafePos k ext) (hI : SafePos k int)
-    (hD : (ext ≠ -1 ∧ int ≠ -1) ∨ (max mf (mm + dl) < iabs (b + 1) ∧ max mf (mm + dl) < iabs (b + 1 + k))) :
-    ((tlen ≤ mf ∧ min (iabs (b + k - shiftPos k ext)) (iabs (b + k - shiftPos k int)) ≤ mf) ∨
-      (tlen ≤ mm ∧ iabs (tlen - min (iabs (b + k - shiftPos k ext)) (iabs (b + k - shiftPos k int))) ≤ dl))
-    ↔ ((tlen ≤ mf ∧ min (iabs (b - ext)) (iabs (b - int)) ≤ mf) ∨
-      (tlen ≤ mm ∧ iabs (tlen - min (iabs (b - ext)) (iabs (b - int))) ≤ dl)) := by
-  unfold SafePos at hE hI
-  have a1 : b + k - -1 = b + 1 + k := by omega
-  have a2 : b - -1 = b + 1 := by omega
-  by_cases ce : ext = -1 <;> by_cases ci : int = -1
-  · subst ce; subst ci
-    have hD' : max mf (mm + dl) < iabs (b + 1) ∧ max mf (mm + dl) < iabs (b + 1 + k) := by
-      rcases hD with h | h
-      · exact absurd rfl h.1
-      · exact h
-    simp only [shiftPos_neg_one, a1, a2]
-    rw [far_decision tlen mf mm dl _ _ hD'.2, far_decision tlen mf mm dl _ _ hD'.1]
-    generalize iabs (b + 1 + k) = s' at hD'
-    generalize iabs (b + 1) = s at hD'
-    simp only [iabs]
-    omega
-  · subst ce
-    have hD' : max mf (mm + dl) < iabs (b + 1) ∧ max mf (mm + dl) < iabs (b + 1 + k) := by
-      rcases hD with h | h
-      · exact absurd rfl h.1
-      · exact h
-    have e2 : b + k - (int + k) = b - int := by omega
-    simp only [shiftPos_neg_one, shiftPos_of_ne k int ci, a1, a2, e2]
-    rw [Int.min_comm (iabs (b + 1 + k)), Int.min_comm (iabs (b + 1)),
-      far_decision tlen mf mm dl _ _ hD'.2, far_decision tlen mf mm dl _ _ hD'.1]
-  · subst ci
-    have hD' : max mf (mm + dl) < iabs (b + 1) ∧ max mf (mm + dl) < iabs (b + 1 + k) := by
-      rcases hD with h | h
-      · exact absurd rfl h.2
-      · exact h
-    have e2 : b + k - (ext + k) = b - ext := by omega
-    simp only [shiftPos_neg_one, shiftPos_of_ne k ext ce, a1, a2, e2]
-    rw [far_decision tlen mf mm dl _ _ hD'.2, far_decision tlen mf mm dl _ _ hD'.1]
-  · have e1 : b + k - (ext + k) = b - ext := by omega
-    have e2 : b + k - (int + k) = b - int := by omega
-    simp only [shiftPos_of_ne k ext ce, shiftPos_of_ne k int ci, e1, e2]
+/-- `dist_to_polya` of `detect_reference_exons_*` (after fix a2ae069 an absent position is infinitely far) -/
+theorem tailDist_shift (k a ext int : Int) (hE : SafePos k ext) (hI : SafePos k int) :
+    minInf (distOrInf (a + k) (shiftPos k ext)) (distOrInf (a + k) (shiftPos k int)) = minInf (distOrInf a ext) (distOrInf a int) := by
+  simp only [distOrInf_shift k a ext hE, distOrInf_shift k a int hI]
 
 end IsoVerif.Lemmas.C11.AssignShift
